@@ -14,7 +14,7 @@ PROPS = {
                      "save/stack_push/stack_pop change only the current values and no frame; backtrack_cut keeps current values and frames.take(count)."),
         residual="The atomic / look-around arms of run are proved to use these operations as the spec machine says (U-RUN refinement), under flow assumptions A1 / A2 (listed in U-RUN).",
         assumptions=[T_VSTD, T_ARITH, T_EXTRACT, "T-swap: <[T]>::swap swaps two in-bounds elements", "T-veclen: a Vec's length is <= usize::MAX (<= isize::MAX for Vec<usize>)"],
-        bounded_families=['refsem'],
+        bounded_families=['state_ops', 'refsem'],
     ),
     'C08': dict(
         bounded_families=['iter'],
